@@ -115,4 +115,5 @@ var cpsValuePos = map[string]int{
 var cpsBanned = []string{"append", "eval", "getbit", "getrange", "setbit", "setrange"}
 
 // commands whose reply can carry a stored string/hash value (must never skip the decompress hook)
-var valueReturning = []string{"get", "getset", "mget", "hget", "hmget", "hgetall", "hvals", "getrange", "substr", "dump", "hscan", "eval"}
+// (set: with the GET option SET returns the previous value)
+var valueReturning = []string{"get", "getset", "mget", "hget", "hmget", "hgetall", "hvals", "getrange", "substr", "dump", "hscan", "eval", "set"}
